@@ -200,6 +200,44 @@ def check_triple(start, dt, n, channels):
             except Exception as e:
                 viol.append(("session/results-by-equation-raises", repr(e)))
             b.end_session()
+            if 2 <= n <= 12 or n % 10 == 0:
+                # a step that fails (settings that cannot be applied: the caller handles the error) costs no grid point: the steps that
+                # follow report the grid without a gap
+                for bad in ({sm: {"base": {"constants": 5}}}, {sm: {"base": {"points": {"nolookup": "[[0, 1], [1, "}}}}):
+                    b.begin_session(scenarios=["base"], scenario_managers=[sm], equations=["s"], starttime=start, dt=dt)
+                    times3 = []
+                    failed = False
+                    for i in range(n + 5):
+                        if i == (n // 2) and not failed:
+                            failed = True
+                            try:
+                                b.run_step(settings=bad)
+                            except Exception:
+                                pass
+                            continue
+                        r = b.run_step()
+                        if isinstance(r, dict) and r.get("msg") == "Stoptime reached":
+                            break
+                        times3 += [float(t) for t in r[sm]["base"]["s"].keys()]
+                    cmp("session/keys-after-a-failed-step(%s)" % ("constants" if "constants" in bad[sm]["base"] else "points"), times3)
+                    b.end_session()
+                # one session over two scenarios with different stop times: no scenario is reported beyond its own stop time, and what is
+                # reported is the grid from the start on
+                j = n // 2
+                b.register_scenarios(scenarios={"short": {"runspecs": {"stoptime": want[j]}}}, scenario_manager=sm)
+                b.begin_session(scenarios=["base", "short"], scenario_managers=[sm], equations=["s"], starttime=start, dt=dt)
+                got2 = {"base": [], "short": []}
+                for _ in range(n + 4):
+                    r = b.run_step()
+                    if isinstance(r, dict) and r.get("msg") == "Stoptime reached":
+                        break
+                    for scn in got2:
+                        got2[scn] += [float(t) for t in r[sm].get(scn, {}).get("s", {}).keys()]
+                b.end_session()
+                for scn, lim in (("base", n), ("short", j)):
+                    if got2[scn] != want[:len(got2[scn])] or len(got2[scn]) > lim + 1 or len(got2[scn]) < j + 1:
+                        viol.append(("session/two-scenarios-different-stop/%s" % scn, "start=%r dt=%r n=%d: scenario %s (stop %r) reported %r" % (
+                            start, dt, n, scn, want[lim], got2[scn][-4:])))
             # the model's stop time computed in floats
             m3, s3 = build(start, dt, start + n * dt)
             sm3 = sm + "f"
